@@ -4,7 +4,7 @@
     Mailbox.close on the channel database, [close_deletes] says when the
     mailbox goes. *)
 From MW Require Import Base Store Monad Usage Server Websocket Service Findings Inv ProtoFacts Obs
-     MbFactsA MbFactsB.
+     MbFactsA MbFactsB MbStable.
 Local Open Scope list_scope.
 
 (** close on the connection that holds the mailbox: never fails, always
@@ -47,6 +47,63 @@ Check C08_reclose_gone.
 Print Assumptions C08_reclose_gone.
 
 (** two sides, one message; the first close keeps everything, the second deletes everything *)
+(** ** stability over ALL events (MbStable.v): "a mailbox and its stored messages stay available
+    while any side that opened it has not closed it"
+
+    A mailbox row is removed by nothing but (i) the close of its LAST open side ([last_close]:
+    no other side has it open), or (ii) an expiry sweep -- periodic, or the start-up sweep of a
+    restart -- at which it was old ([mb_updated <= sweep time - exp]) and had no subscriber
+    ([expired]; a restart drops every subscription first); over a crash event additionally the
+    start-up sweep after the crash.  [mailbox_stable_run] lifts this to every history: either
+    the mailbox is still there, or the history contains the event that removed it, with its
+    cause.  While it is there its messages are kept in order and only appended to, its side
+    records are only appended to or closed by their own side ([mailbox_content_stable],
+    [side_row_stable]); one side's close leaves the other side's access, subscriptions and
+    messages untouched ([close_keeps_other_side]). *)
+Theorem C08_mailbox_stable : ltac:(let t := type of mailbox_stable in exact t).
+Proof. exact mailbox_stable. Qed.
+Check C08_mailbox_stable.
+Print Assumptions C08_mailbox_stable.
+
+Theorem C08_mailbox_stable_all : ltac:(let t := type of mailbox_stable_all in exact t).
+Proof. exact mailbox_stable_all. Qed.
+Check C08_mailbox_stable_all.
+Print Assumptions C08_mailbox_stable_all.
+
+Theorem C08_mailbox_stable_run : ltac:(let t := type of mailbox_stable_run in exact t).
+Proof. exact mailbox_stable_run. Qed.
+Check C08_mailbox_stable_run.
+Print Assumptions C08_mailbox_stable_run.
+
+Theorem C08_open_side_keeps_mailbox : ltac:(let t := type of open_side_keeps_mailbox in exact t).
+Proof. exact open_side_keeps_mailbox. Qed.
+Check C08_open_side_keeps_mailbox.
+Print Assumptions C08_open_side_keeps_mailbox.
+
+Theorem C08_close_keeps_other_side : ltac:(let t := type of close_keeps_other_side in exact t).
+Proof. exact close_keeps_other_side. Qed.
+Check C08_close_keeps_other_side.
+Print Assumptions C08_close_keeps_other_side.
+
+Theorem C08_mailbox_content_stable : ltac:(let t := type of mailbox_content_stable in exact t).
+Proof. exact mailbox_content_stable. Qed.
+Check C08_mailbox_content_stable.
+Print Assumptions C08_mailbox_content_stable.
+
+Theorem C08_side_row_stable : ltac:(let t := type of side_row_stable in exact t).
+Proof. exact side_row_stable. Qed.
+Check C08_side_row_stable.
+Print Assumptions C08_side_row_stable.
+
+(** the two causes really remove it (the disjunction is exact) *)
+Theorem C08_expired_removes : ltac:(let t := type of expired_removes in exact t).
+Proof. exact expired_removes. Qed.
+Print Assumptions C08_expired_removes.
+Theorem C08_last_close_removes : ltac:(let t := type of last_close_removes in exact t).
+Proof. exact last_close_removes. Qed.
+Print Assumptions C08_last_close_removes.
+
+
 Example C08_nonvacuous :
   let d := mkChan [mkNp 1 "a" "4" "mb"] [mkNps 1 true "s1" 5]
                   [mkMb "a" "mb" 7 true]
